@@ -33,6 +33,7 @@ var guardTable = []guardSpec{
 	{"ring.(SubRing).generateNTTConstants", []string{"Modulus", "NthRoot"}, []token.Token{token.NEQ}, []string{"C19", "C01"}, "a prime must be congruent to 1 modulo the root order (2N, 4N for the conjugate-invariant ring), not merely modulo 2N"},
 	{"core/rlwe.(Parameters).PiOverflowMargin", []string{"level", "0"}, []token.Token{token.LSS}, []string{"C04", "C19"}, "an evaluation key without P on parameters that have one is at P-level -1: the margin of an empty set of primes is the documented -1, not a panic"},
 	{"core/rlwe.CheckModuli", []string{"AllDistinct"}, nil, []string{"C19"}, "Q and P together are the RNS basis of QP: a prime present in both must be refused (each ring only checks its own chain)"},
+	{"ring.NewRingWithCustomNTT", []string{"AllDistinct(ModuliChain)"}, []token.Token{token.NOT}, []string{"C19", "C01"}, "the moduli of an RNS basis are pairwise distinct (CRT needs coprime moduli): a repeated prime anywhere in the chain is refused"},
 	{"core/rlwe.checkSizeParams", []string{"logN", "MaxLogN"}, []token.Token{token.GTR}, []string{"C19"}, "ring degree above the supported maximum"},
 	{"core/rlwe.checkSizeParams", []string{"logN", "MinLogN"}, []token.Token{token.LSS}, []string{"C19"}, "ring degree below the minimum the NTT needs"},
 	{"core/rlwe.checkModuliLogSize", []string{"qi", "MaxModuliSize"}, []token.Token{token.GTR, token.LOR}, []string{"C19"}, "requested Q prime size out of range"},
